@@ -84,6 +84,11 @@ def run(ctx: Ctx):
     complete_phase(ctx)
     no_diversion(ctx)
     dropoff(ctx)
+    from . import c06 as _c06
+    ctx.attempt(_c06.move_rejections, ctx)  # a finished trip is dropped off only if move() hands its state on
+    # the vehicle-update phase threads its state: what one vehicle's update produced is what the next vehicle is stepped on, and a failed
+    # update keeps what the earlier vehicles of the step did (a reducer that falls back to the phase's initial state undoes them all)
+    ctx.attempt(rules.rule_fold_threading, ctx, "D1", ctx.repo.func("nrel/hive/state/simulation_state/update/step_simulation_ops.py", "perform_vehicle_state_updates"), 1)
     rules.rule_default_update(ctx, "D5", require_perform_update=True)
     cancellation(ctx, timing=False)
     ctx.floor("WMC.callers", 8)
